@@ -87,7 +87,7 @@ def show_event(ev: t.Any) -> str:
             args.append("config={'sqlframe.input.dialect': %r}" % a["dialect"])
         return ("activate(" if k == "activate" else "with activate_context(") + ", ".join(args) + (")" if k == "activate" else "): # enter")
     if "ctxExit" in ev:
-        return "# leave the block normally" if ev["ctxExit"]["k"] == "normal" else "raise RuntimeError  # inside the block"
+        return {"normal": "# leave the block normally", "exn": "raise RuntimeError  # inside the block", "base": "raise KeyboardInterrupt-like BaseException  # inside the block"}[ev["ctxExit"]["k"]]
     f = ev["userImport"]["f"]
     if "fromImport" in f:
         return f"from {'.'.join(f['fromImport']['path'])} import {f['fromImport']['name']}"
@@ -111,7 +111,7 @@ BATTERY = [
     IA("pyspark.sql.functions"),
 ]
 
-CORE = [A("duckdb"), A("standalone"), D, CE("duckdb"), CX("normal"), CX("exn"), IA("pyspark.sql.functions"), S]
+CORE = [A("duckdb"), A("standalone"), D, CE("duckdb"), CX("normal"), CX("exn"), CX("base"), IA("pyspark.sql.functions"), S]
 WIDE = CORE + [
     A("duckdb", conn=1),
     A("duckdb", conn=2),
@@ -322,20 +322,43 @@ def lean_env(kind: str) -> dict:
     return _ENVS[kind]
 
 
+_MODEL = {"ok": True, "spec_port_mismatch": 0}
+_SPEC_TB: t.List[t.Any] = []
+
+
+def spec_tables() -> t.Any:
+    import c20_spec
+
+    if not _SPEC_TB:
+        _SPEC_TB.append(c20_spec.Tables(vlib.REPO))
+    return _SPEC_TB[0]
+
+
 def evaluate(cases: t.List[dict]) -> t.List[dict]:
+    import c20_spec
+
     impls = pool_map(lambda c: run_child(impl_job(c)), cases)
-    outs = vlib.run_driver("C20", [{"case": i, "env": lean_env(c["env"]), "events": c["events"]} for i, c in enumerate(cases)])
+    outs: t.List[t.Optional[dict]] = [None] * len(cases)
+    if _MODEL["ok"]:
+        outs = vlib.run_driver("C20", [{"case": i, "env": lean_env(c["env"]), "events": c["events"]} for i, c in enumerate(cases)])
+    tb = spec_tables()
     res = []
     for c, impl, o in zip(cases, impls, outs):
-        if "err" in o:
+        if o is not None and "err" in o:
             raise RuntimeError(f"driver rejected a case: {o} {c}")
+        py_spec = c20_spec.spec_trace(tb, lean_env(c["env"]), c["events"])
+        if o is None:
+            # the Lean model is unavailable: judge the implementation against the specification port alone
+            o = {"spec": py_spec, "scope": c20_spec.violated(tb, lean_env(c["env"]), c["events"]), "trace": None}
+        elif [{k: sp[k] for k in ("want", "active", "mocked", "config")} for sp in o["spec"]] != py_spec:
+            _MODEL["spec_port_mismatch"] += 1
         if "trace" not in impl:
             res.append({"case": c, "impl_error": impl.get("error", "?"), "corr_ok": False, "spec_ok": True, "scope": o["scope"], "first_diff": None, "spec_fail": None, "impl": None, "model": o["trace"], "spec": o["spec"]})
             continue
         ordered = c["env"] == "hidden"
         it = [canon_step(s, ordered) for s in impl["trace"]]
-        mt = [canon_step(s, ordered) for s in o["trace"]]
-        first_diff = next((i for i, (a, b) in enumerate(zip(it, mt)) if a != b), None)
+        mt = [canon_step(s, ordered) for s in o["trace"]] if o["trace"] is not None else None
+        first_diff = next((i for i, (a, b) in enumerate(zip(it, mt)) if a != b), None) if mt is not None else None
         spec_fail = None
         for i, (s, sp) in enumerate(zip(impl["trace"], o["spec"])):
             if not meets(sp["want"], s["outcome"]):
@@ -344,11 +367,11 @@ def evaluate(cases: t.List[dict]) -> t.List[dict]:
             if not state_meets(sp, s, _DOC_SQL_KEYS):
                 spec_fail = {"event": i, "what": "state", "spec_state": {k: sp[k] for k in ("active", "mocked", "config")}, "got": {"mods": s["mods"], "config": s["config"]}}
                 break
-        model_spec_ok = all(sp["meets"] and sp["stateMeets"] for sp in o["spec"])
+        model_spec_ok = all(sp.get("meets", True) and sp.get("stateMeets", True) for sp in o["spec"])
         res.append(
             {
                 "case": c,
-                "corr_ok": first_diff is None,
+                "corr_ok": (first_diff is None) if mt is not None else None,
                 "first_diff": first_diff,
                 "spec_ok": spec_fail is None,
                 "spec_fail": spec_fail,
@@ -364,7 +387,8 @@ def evaluate(cases: t.List[dict]) -> t.List[dict]:
 
 
 def is_known(r: dict, known: t.Dict[str, dict]) -> bool:
-    return bool(r["scope"]) and all(h in known for h in r["scope"]) and r["corr_ok"]
+    # (with the model unavailable, corr_ok is None: the hypotheses decidable on the events alone classify)
+    return bool(r["scope"]) and all(h in known for h in r["scope"]) and r["corr_ok"] is not False
 
 
 def shrink(c: dict, known: t.Dict[str, dict], fail_at: t.Optional[int] = None, budget_s: float = 40.0) -> dict:
@@ -531,7 +555,18 @@ def local_known() -> t.List[dict]:
 
 
 def setup(ctx: Ctx) -> t.Tuple[t.List[str], t.List[str]]:
-    notes = exercise_tables(ctx)
+    import c20_spec
+
+    try:
+        notes = exercise_tables(ctx)
+        _MODEL["ok"] = True
+    except Exception as e:
+        # Gen untranslatable / build broken: the model cannot be run; keep searching with the specification port
+        _MODEL["ok"] = False
+        notes = {"driver_unavailable": str(e)[:300]}
+        ctx.broken.append(f"the Lean driver is unavailable (implementation judged against the specification port only): {str(e)[:200]}")
+        tb = spec_tables()
+        _TABLES.update({"engines": tb.engines(), "documented": tb.documented, "docKeys": c20_spec.doc_keys()})
     ctx.cov["table_exercise"] = notes
     engines = list(_TABLES["engines"])
     _DOC_SQL_KEYS[:] = [k for k in _TABLES["docKeys"] if k.startswith("pyspark.sql")]
@@ -550,20 +585,15 @@ def run(ctx: Ctx) -> None:
     for e in local_known():
         known.setdefault(e["id"], e)
 
-    try:
-        engines, broken = setup(ctx)
-    except Exception as e:
-        # the model cannot be run (Gen untranslatable / build broken): nothing to compare against
-        ctx.broken.append(f"the Lean driver is unavailable: {str(e)[:300]}")
-        vlib.report_violation(ctx, {"kind": "proof obligation no longer checks; the model could not be run, no failing input searched", "broken": ctx.broken}, no_input=True)
-        ctx.cov.update({"evaluations": 0, "distinct_nontrivial": 0, "rule": "driver unavailable", "samples": []})
-        return
+    engines, broken = setup(ctx)
 
     cases = cases_for(ctx, engines, broken)
     log(f"C20: {len(cases)} cases")
     res = evaluate(cases)
 
-    corr_bad = [r for r in res if not r["corr_ok"]]
+    corr_bad = [r for r in res if r["corr_ok"] is False]
+    if _MODEL["spec_port_mismatch"]:
+        ctx.broken.append(f"the specification port (tools/props/c20_spec.py) disagrees with Impl/C20Spec.lean on {_MODEL['spec_port_mismatch']} cases")
     spec_bad = [r for r in res if not r["spec_ok"]]
     new_viol = []
     for r in spec_bad:
@@ -573,7 +603,7 @@ def run(ctx: Ctx) -> None:
         else:
             new_viol.append(r)
     # a case the model says violates the specification although every named hypothesis holds contradicts C20_*_partial
-    unexplained = [r for r in res if r["corr_ok"] and not r.get("model_spec_ok", True) and not r["scope"]]
+    unexplained = [r for r in res if r["corr_ok"] is True and not r.get("model_spec_ok", True) and not r["scope"]]
 
     # replay the recorded witnesses of the open known findings on the real code
     wit = [(h, e) for h, e in known.items() if e.get("witness")]
@@ -673,10 +703,11 @@ def run(ctx: Ctx) -> None:
             "evaluations": len(res),
             "distinct_nontrivial": len(nontrivial),
             "rule": "corpus; for every engine of ENGINE_TO_PREFIX x both environments: activate, every documented import statement, deactivate; "
-            "every well-formed sequence over the 8-symbol core alphabet up to the tier's depth (+ observation battery); random sequences of length 3..5 over the wide alphabet; "
+            "every well-formed sequence over the 9-symbol core alphabet up to the tier's depth (+ observation battery); random sequences of length 3..5 over the wide alphabet; "
             "each case runs in a fresh interpreter; non-trivial = distinct (environment, events) with a successful engine activation and at least one import that yielded a sqlframe object",
             "exhaustive": False,
-            "traces_validated_against_impl": sum(r["corr_ok"] for r in res),
+            "traces_validated_against_impl": sum(1 for r in res if r["corr_ok"] is True),
+            "model_available": _MODEL["ok"],
             "impl_vs_spec_agree": sum(r["spec_ok"] for r in res),
             "out_of_scope_cases": sum(1 for r in res if r["scope"]),
             "environments": envs,
